@@ -113,7 +113,7 @@ prop('C19',
             'bycycle.burst.amp.detect_bursts_amp', F + 'burst.compute_burst_fraction', F + 'burst.compute_amp_consistency',
             F + 'burst.compute_period_consistency', F + 'shape.compute_shape_features', CF,
             'bycycle.objs.fit.Bycycle.fit', 'bycycle.objs.fit.Bycycle.plot', 'bycycle.burst.utils.check_min_burst_cycles',
-            'bycycle.objs.fit.BycycleGroup.fit'],
+            'bycycle.objs.fit.BycycleGroup.fit', 'bycycle.group.utils.progress_bar'],
      jobs=['kwargs_shape', 'detect_bursts_cycles', 'detect_bursts_amp', 'objects'],
      unit_jobs={'bycycle.group.utils.check_kwargs_shape': ['kwargs_shape'],
                 'bycycle.burst.cycle.detect_bursts_cycles': ['detect_bursts_cycles'],
@@ -228,15 +228,16 @@ prop('C10', level='other',
 GF = 'bycycle.group.features.'
 BGF = 'bycycle.objs.fit.BycycleGroup.fit'
 prop('C11', level='other',
-     units=[GF + 'compute_features_2d', GF + '_proxy_2d', 'bycycle.group.utils.check_kwargs_shape', BGF],
+     units=[GF + 'compute_features_2d', GF + '_proxy_2d', 'bycycle.group.utils.check_kwargs_shape', BGF,
+            'bycycle.group.utils.progress_bar'],
      jobs=['group_2d'],
      unit_jobs={GF + 'compute_features_2d': ['group_2d'], BGF: ['group_2d']},
      no_input_kinds=('ensures', 'frame'),
      assumptions=['group level: an option list is a map position -> value with per-position mutation, i.e. its entries are assumed to be pairwise distinct objects (lists built as [opts] * n are covered by the bounded jobs; defect D15 lived exactly there)'],
      trusted=['multiprocessing.Pool.imap yields f(x_k) in input order whatever the number of workers and their completion '
               'order (assumed contract; imap_unordered is modelled as an arbitrary permutation)',
-              'functools.partial, zip, deepcopy of option lists (new element objects), progress_bar (same items, same order; '
-              'its body has a try/except around the optional tqdm import and is not verified)'],
+              'functools.partial, zip, deepcopy of option lists (new element objects); tqdm.tqdm(iterable, ...) yields the items of the '
+              'iterable in its order (assumed; progress_bar itself is verified: both outcomes of the optional import are explored)'],
      explanation='Proved relative to the imap ordering contract, for every number of rows and every n_jobs: '
                  'compute_features_2d(axis=0) returns len(sigs) tables and position i is CF(sigs[i], fs, f_range, return_samples, '
                  'options of row i minus return_samples) for a shared dict, None and a per-row list (the one-element-list branch '
